@@ -18,7 +18,8 @@
 (*   L:   addr, scheme, path ("" = job default), p1 / p3 (value of __param_k1 /      *)
 (*        __param_k3 set by relabeling, "" = untouched), inst, app, bad (a label      *)
 (*        whose name is not a valid Prometheus name: starts with a digit), tmp        *)
-(*        (a __tmp label)                                                            *)
+(*        (a __tmp label), gapp (a label "app" carried by the target GROUP: the        *)
+(*        target's own label wins)                                                   *)
 (* StripChangedParams = TRUE mirrors the code: the label of every CONFIGURED param is *)
 (* removed before shipping, also when relabeling changed its value.                   *)
 (***************************************************************************)
@@ -43,8 +44,9 @@ QueryK1(cfg, p1) == IF p1 = "" THEN CfgK1(cfg)
 Query(k1vals, p3) == (IF k1vals = <<>> THEN {} ELSE {<<"k1", k1vals>>}) \cup (IF p3 = "" THEN {} ELSE {<<"k3", <<p3>>>>})
 FinalLabels(job, inst, app, bad) ==
   {<<"job", job>>, <<"instance", inst>>} \cup (IF app = "" THEN {} ELSE {<<"app", app>>}) \cup (IF bad = "" THEN {} ELSE {<<"1bad", bad>>})
+App(L) == IF L.app # "" THEN L.app ELSE L.gapp      \* the target's own label overrides the group's
 Plain(cfg, L) ==
-  [labels |-> FinalLabels("j", IF L.inst = "" THEN PAddr(cfg, L) ELSE L.inst, L.app, L.bad),
+  [labels |-> FinalLabels("j", IF L.inst = "" THEN PAddr(cfg, L) ELSE L.inst, App(L), L.bad),
    url    |-> [scheme |-> PScheme(cfg, L), host |-> PAddr(cfg, L), path |-> PPath(cfg, L),
                query |-> Query(QueryK1(cfg, PP1(cfg, L)), L.p3)]]
 
@@ -56,7 +58,7 @@ Shipped(cfg, L) ==
    p1 |-> IF cfg.k1 # "none" /\ (StripChangedParams \/ PP1(cfg, L) = "v1") THEN "" ELSE PP1(cfg, L),
    p3 |-> L.p3,
    inst |-> IF L.inst = "" THEN PAddr(cfg, L) ELSE L.inst,
-   app |-> L.app,
+   app |-> App(L),
    bad |-> L.bad,            \* shipped under the name __invalid_label_1bad
    tmp |-> L.tmp]
 \* the shard's Prometheus: job forced to http, params as configured, labels from the static group;
